@@ -69,11 +69,22 @@ Proof. vm_compute. reflexivity. Qed.
    library (statement trees of ANY nesting: if/elif/else, for [key,] value with else over arrays,
    strings and maps, break/continue under any ifs in nested loops, set/set_global, set blocks and
    filter sections with filters, includes -- in captures, in loops), every context and global
-   context, every world whose kwargs keys are strings and whose filters do not inspect the VM
-   state, and every non-failing appending writer: rendering the compiled library on the VM gives
+   context, every world whose kwargs keys are strings and whose filters and functions do not
+   inspect the VM state, and every non-failing appending writer: rendering the compiled library on the VM gives
    exactly the text of the reference interpreter, or both fail; any fuel >= n is enough.
    This contains for_loop_refinement, break_continue_innermost, if_first_truthy_branch (with
    C03_if_first_truthy_branch below) and capture exactness of DESIGN §6.
+   Expressions covered (Spec/Stmt.v expr, Compile.wf_expr): constants, variables, loop.* fields,
+   attributes (plain and optional `?.`), not/and/or, ==, every other binary operator (+ - * / //
+   % ** < <= > >= != ~ in; `not in` = not (.. in ..)), unary minus, the ternary, subscripts and
+   slices (plain and optional), tests, filters with keyword arguments.  The operators, subscript
+   and slice are parameters of the reference interpreter (builtins b_binop, b_neg, b_subscript,
+   b_slice: C13/C14/C17 own their meaning); what is proved here is evaluation order, error
+   propagation, short-circuiting and that only the chosen branch of a ternary is evaluated.
+   Function calls with keyword arguments are covered too (b_function; the world's functions must
+   not read the VM state, as for filters; `super()` is excluded by wf_expr: it is not a function).
+   EXCLUDED by wf_expr (compiled by Model/Compile.v and covered by C07_compile_always_checks,
+   but compile_correct is not proved for them): array and map literals.
    Hypotheses on the trees (lib_wf = what the parser guarantees, Compile.wf_stmt): break/continue
    only in a loop and not across a capture, loop.* only inside a for, non-empty loop variable
    names, user variables not named __tera_context/__tera_loop_*, includes name templates listed
@@ -86,6 +97,7 @@ Theorem C03_compile_correct :
   forall wd : world,
     (forall k, w_as_key wd (VStr k false) = Some (KStr k true)) ->
     (forall n v k sc sc', w_filter wd n v k sc = w_filter wd n v k sc') ->
+    (forall n k sc sc', w_function wd n k sc = w_function wd n k sc') ->
   forall (lib : list tdef) (name : str) (t : tdef) (cx glob : ctx) (w : W),
     world_has wd lib -> lib_wf lib -> find_t lib name = Some t ->
     match render (builtins_of_world wd) None lib name cx glob with
@@ -123,6 +135,7 @@ Theorem C03_body_correct :
   forall wd : world,
     (forall k, w_as_key wd (VStr k false) = Some (KStr k true)) ->
     (forall n v k sc sc', w_filter wd n v k sc = w_filter wd n v k sc') ->
+    (forall n k sc sc', w_function wd n k sc = w_function wd n k sc') ->
   forall tpl ae depth ch inc okn,
     inc_sim W wr wapp wd ae depth inc okn ->
     forall body, list_ok W wr wapp wd tpl ae depth ch inc okn body.
@@ -150,6 +163,7 @@ Theorem C03_capture_is_exact_partial :
   forall wd : world,
     (forall k, w_as_key wd (VStr k false) = Some (KStr k true)) ->
     (forall n v k sc sc', w_filter wd n v k sc = w_filter wd n v k sc') ->
+    (forall n k sc sc', w_function wd n k sc = w_function wd n k sc') ->
   forall tpl ae depth ch inc okn,
     inc_sim W wr wapp wd ae depth inc okn ->
   forall body lex pc b stk l sv c o,
@@ -248,6 +262,31 @@ Example C03_ex_vm :
   end = [49;58;49;59;51;58;51;59;110]%N.
 Proof. vm_compute. reflexivity. Qed.
 
+(* the operator / ternary / subscript / slice / optional-chaining forms:
+   {% for x in a %}{{ (x ~ "<") if x < 3 and x != 2 else ("k" in m) }}{{ a[1:][0] }}{{ m?.k }}{% endfor %}
+   is well formed, and the reference interpreter and the compiled code on the VM agree *)
+Definition ex2_main : tdef :=
+  {| td_name := [116]%N; td_autoescape := false;
+     td_body :=
+       [SFor None [120]%N (EVar [97]%N)
+          [SPrint (ETernary (EAnd (EBin BLt (EVar [120]%N) (EConst (VInt I64 3))) (EBin BNe (EVar [120]%N) (EConst (VInt I64 2))))
+                            (EBin BConcat (EVar [120]%N) (EConst (VStr [60]%N false)))
+                            (EBin BIn (EConst (VStr [107]%N false)) (EVar [109]%N)));
+           SPrint (ESub false (ESlice false (EVar [97]%N) (Some (EConst (VInt I64 1))) None None) (EConst (VInt I64 0)));
+           SPrint (EAttrOpt (EVar [109]%N) [107]%N)] []] |}.
+Definition ex2_ctx : ctx :=
+  [([97]%N, VArr [VInt U64 1; VInt U64 2; VInt U64 3]); ([109]%N, VMap [(KStr [107]%N true, VStr [118]%N false)])].
+Definition ex2_world := world0 [([116]%N, compile_tdef ex2_main)].
+Definition ex2_out : str := [49; 60; 50; 118; 116; 114; 117; 101; 50; 118; 116; 114; 117; 101; 50; 118]%N.   (* 1<2vtrue2vtrue2v *)
+
+Example C03_ex_operators :
+  wf_body (fun _ => false) (td_body ex2_main) = true /\
+  render (builtins_of_world ex2_world) None [ex2_main] [116]%N ex2_ctx [] = ROk ex2_out /\
+  match render_to str wr_str ex2_world 400 (compile_tdef ex2_main) None ex2_ctx [] [] with
+  | RDone _ (SinkTop out) => out
+  | _ => []
+  end = ex2_out.
+Proof. vm_compute. repeat split. Qed.
 
 (* ================= the full world (Model/World1.v) ================= *)
 (* Everything the VM delegates is, in World1, the per-property model of the Rust function: Number.v
